@@ -102,19 +102,21 @@ class Process(multiprocessing.Process):
 
         self.logger.debug("starting")
         while True:
-            if self.job_queue.empty():
+            # Block until a job (or the StopCommand queued behind the jobs)
+            # arrives: Queue.empty() can still be true for a moment after the
+            # parent has put the jobs, which made workers leave at once.
+            job = self.job_queue.get()
+            if job is StopCommand:
                 break
-            else:
-                job = self.job_queue.get()
-                try:
-                    self.queue.put(
-                        job.perform(
-                            *self.job_args
-                        )
+            try:
+                self.queue.put(
+                    job.perform(
+                        *self.job_args
                     )
-                except Exception as e:
-                    logger.exception(e)
-                    self.queue.put(e)
+                )
+            except Exception as e:
+                logger.exception(e)
+                self.queue.put(e)
         self.logger.debug("terminating")
         self.job_queue.close()
 
@@ -162,6 +164,10 @@ class Process(multiprocessing.Process):
         for job in jobs:
             job_queue.put(job)
             total += 1
+
+        # one StopCommand per worker, behind the jobs
+        for _ in processes:
+            job_queue.put(StopCommand)
 
         logger.info(
             f"Running {total} jobs across {number_of_cores} processes"
